@@ -828,7 +828,11 @@ func (r *runner) execWalk(op *Op, res *OpResult) {
 		max = 40
 	}
 	fetch := func(dir, path string) (WalkPage, bool) {
-		resp := r.w.Do(r.curInc(), op.ID, Request{Method: "GET", Path: path})
+		req := Request{Method: "GET", Path: path}
+		if dir == "first" && ws.Filter != "" {
+			req.Body, req.Header = ws.Filter, map[string]string{"Content-Type": "application/json"}
+		}
+		resp := r.w.Do(r.curInc(), op.ID, req)
 		pg := WalkPage{Dir: dir, Status: resp.Status, Invoke: resp.Invoke, Return: resp.Return}
 		if resp.Crashed || resp.Aborted || resp.Panic != "" {
 			pg.Code = "no-answer"
